@@ -605,6 +605,26 @@ fn c17(tier: Tier, seed: u64) -> i32 {
 	// a non-acquiring operation racing with acquisitions of other threads
 	// (check-then-act inside Debug would wait there)
 	conc_campaign(&mut ctx, "C17", tier);
+	// `{:?}` whose raw try / unlock operations panic (C12's fault enumeration,
+	// restricted to the base cases that format a target): whatever it does on
+	// the way out, it must not release holds it never took nor keep any
+	{
+		let n = tier.pick(40_000, 1_000_000);
+		ctx.search("seq-debug-under-raw-faults", n, 160, |bytes, want| {
+			let mut rep = c12_eval(bytes, want);
+			let keep: Vec<Finding> = rep
+				.violations
+				.drain(..)
+				.filter(|f| f.sig.contains("|debug|"))
+				.map(|f| Finding { prop: "C17", sig: format!("disturbs|debug|raw-panic|{}", f.sig), ..f })
+				.collect();
+			if keep.is_empty() {
+				rep.replay = None;
+			}
+			rep.violations = keep;
+			rep
+		});
+	}
 	ctx.require_label("nonacq_transient_raw_ops", 200);
 	ctx.finish()
 }
@@ -2000,6 +2020,9 @@ pub fn seq_profile(prop: &str) -> Option<(SeqCfg, Opts)> {
 			cfg.world.min_leaves = 2;
 			cfg.world.p_copy_permuted = 150;
 			cfg.world.p_byval = 50;
+			// zero-sized members (empty owned collections at the address of a
+			// leaf) take part in the sort without being locks
+			cfg.world.p_zst_member = 30;
 			cfg.w = StepW { phantom_hold: 0, phantom_release: 0, p_try: 20, p_read: 100, p_coll_target: 250, guard_ops: 1, ..StepW::default() };
 			let opts = Opts::default();
 			Some((cfg, opts))
